@@ -616,6 +616,9 @@ func (a *asset) consolidateAsset(logger *slog.Logger) error {
 				return fmt.Errorf("segments of representation %s are not contiguous", rep.ID)
 			}
 		}
+		if rep.MediaTimescale == 0 {
+			continue // no media timeline that is looped (e.g. thumbnails without a duration)
+		}
 		repDurMS := 1000 * rep.duration() / rep.MediaTimescale
 		sameDur := rep.duration()*refRep.MediaTimescale == refRep.duration()*rep.MediaTimescale
 		if rep.ContentType == "audio" && refRep.ContentType != "audio" {
